@@ -795,6 +795,19 @@ def implicit_conversions(ck, L):
             return (True, 'QFlags<E>(E) converting constructor')
         if exp == c05.E1 and a == c05.E2:
             return (False, 'QFlags<E> converts to int, and int does not convert to the enumeration E implicitly')
+        arith = (c05.BOOL, c05.INT, c05.UINT, c05.DOUBLE)
+        if exp in arith and a in arith:
+            return (True, 'standard arithmetic conversion (possibly narrowing, still implicit)')
+        if exp in arith and a == c05.E1:
+            return (True, 'an unscoped enumeration converts to an arithmetic type')
+        if exp in arith and a == c05.E2:
+            return (True, 'QFlags<E>::operator Int()')
+        if exp in arith and a == c05.E3:
+            return (False, 'a scoped enumeration has no implicit conversion to an arithmetic type')
+        if exp in (c05.E1, c05.E3) and a in arith:
+            return (False, 'an arithmetic value does not convert to an enumeration implicitly')
+        if exp == c05.VARIANT:
+            return (a != c05.VOID, 'QVariant has converting constructors for the value types used here')
         return (False, 'no implicit conversion known to the oracle')
     n = 0
     for exp in c05.TKS:
